@@ -149,3 +149,37 @@ def annotation_models():
 def mm_def_key(d):
     from . import model as mm
     return mm.def_sort_key(d)
+
+
+def cross_namespace_inheritance_models():
+    """Inheritance across namespaces where the parent's members use names local to the parent's namespace, with and without
+    same-named definitions in the child's namespace, for both alphabetical orders of the two namespaces (the importing file is
+    compiled first in one of them, the imported one in the other)."""
+    from .model import (Model, Namespace, File, Alias, TagLit, R, N, L, M, P, VOID, mkfield, mktag, mkstruct, mkunion, mkroute)
+    I32, STR = P('Int32', ()), P('String', ())
+    out = []
+    member_types = [('direct', R(None, 'Dep')), ('list', L(R(None, 'Dep'), None, None)), ('nullable', N(R(None, 'Dep'))), ('alias', R(None, 'DepAl')),
+                    ('map', M(R(None, 'Dep'))), ('union', R(None, 'DepU'))]
+    for home, user in (('na', 'nb'), ('nb', 'na')):
+        for kind in ('struct', 'union'):
+            for mname, mt in member_types:
+                for same in (False, True):
+                    for with_default in ((False, True) if (kind == 'struct' and mname == 'union') else (False,)):
+                        home_defs = [mkstruct('Dep', fields=[mkfield('x', I32)]), Alias('DepAl', R(None, 'Dep'), None, ()),
+                                     mkunion('DepU', tags=[mktag('dv'), mktag('dw', R(None, 'Dep'))])]
+                        if kind == 'struct':
+                            home_defs.append(mkstruct('Parent', fields=[mkfield('m', mt, TagLit('dv') if with_default else ('nodef',))]))
+                            user_defs = [mkstruct('Child', parent=R(home, 'Parent'), fields=[mkfield('c', I32)]),
+                                         mkroute('rc', 1, R(None, 'Child'), VOID, VOID)]
+                        else:
+                            home_defs.append(mkunion('Parent', tags=[mktag('pv'), mktag('m', mt)]))
+                            user_defs = [mkunion('Child', parent=R(home, 'Parent'), tags=[mktag('c')]),
+                                         mkroute('rc', 1, R(None, 'Child'), VOID, VOID)]
+                        if same:
+                            user_defs += [mkstruct('Dep', fields=[mkfield('y', STR)]), Alias('DepAl', STR, None, ()),
+                                          mkunion('DepU', tags=[mktag('dx'), mktag('dv', STR)])]
+                        nss = {home: Namespace(home, (File(None, (), tuple(sorted(home_defs, key=mm_def_key))),)),
+                               user: Namespace(user, (File(None, (home,), tuple(sorted(user_defs, key=mm_def_key))),))}
+                        out.append((Model((nss['na'], nss['nb'])), ('cross-namespace-inheritance', kind, mname, 'same-names' if same else 'distinct', 'default' if with_default else 'plain',
+                                                                    home + '<-' + user)))
+    return out
